@@ -23,6 +23,9 @@ Forms:
 PAIR_T = 'std::pair<unsigned int, unsigned int>'
 
 
+VERTEX_MAX = ('global', 'BaseGraph::algorithms::BASEGRAPH_VERTEX_MAX')
+
+
 class Terms:
     def __init__(self, fn):
         self.fn = fn
@@ -45,6 +48,28 @@ class Terms:
                         r[d] = n['c'][ix]
             self._ref_init = r
         return self._ref_init
+
+    def _single_def(self, did):
+        """initialiser node of a local that is declared once with an initialiser and never written again"""
+        if not hasattr(self, '_const_inits'):
+            inits, written = {}, set()
+            f = self.fn
+            for n in f.nodes:
+                if n['k'] == 'DeclStmt':
+                    for ix, d in enumerate(n['decls']):
+                        if ix < len(n['c']) and n['c'][ix] >= 0:
+                            inits.setdefault(d, []).append(n['c'][ix])
+                elif n['k'] in ('BinaryOperator', 'CompoundAssignOperator') and n.get('op', '').endswith('=') and \
+                        n.get('op') not in ('==', '!=', '<=', '>='):
+                    l = f.nodes[f.strip(n['c'][0])]
+                    if l['k'] == 'DeclRefExpr':
+                        written.add(l['d'])
+                elif n['k'] == 'UnaryOperator' and n.get('op') in ('++', '--'):
+                    l = f.nodes[f.strip(n['c'][0])]
+                    if l['k'] == 'DeclRefExpr':
+                        written.add(l['d'])
+            self._const_inits = {d: v[0] for d, v in inits.items() if len(set(v)) == 1 and d not in written}
+        return self._const_inits.get(did)
 
     def _inline_predicate(self, callee, args, depth):
         """a free bool function of the library whose body is one return statement is read as its expression"""
@@ -127,6 +152,18 @@ class Terms:
                 if d.get('local'):
                     if rr and dk == 'Var' and d.get('isref') and n['d'] in self.ref_inits():
                         return self.t(self.ref_inits()[n['d']], rr, depth + 1)
+                    if dk == 'Var' and d.get('constq') and not d.get('isref') and depth < 6 and \
+                            d.get('ctype', '').replace('const ', '') in ('unsigned long', 'unsigned int'):
+                        # a named constant holding the largest VertexIndex IS the documented sentinel
+                        sd = self._single_def(n['d'])
+                        if sd is not None:
+                            tv = self.t(sd, rr, depth + 1)
+                            while tv[0] in ('cast', 'conv') and len(tv) > 2 and isinstance(tv[2], tuple):
+                                tv = tv[2]
+                            if tv == VERTEX_MAX:
+                                return VERTEX_MAX
+                            if tv[0] == 'int' and isinstance(tv[1], int):
+                                return tv            # a named integer constant is its literal
                     return ('var', n['d'])
                 q = d.get('qname', '')
                 if q.startswith('std::integral_constant<bool, ') and q.endswith('>::value'):
@@ -210,6 +247,28 @@ class Terms:
             inl = self._inline_predicate(n.get('callee', -1), args, depth)
             if inl is not None:
                 return inl
+            if cal['tname'] in ('std::none_of', 'std::any_of') and len(args) == 3 and depth < 6:
+                # none_of(b, e, [v](x) { return x == v; })  ==  find(b, e, v) == e   (any_of: != e)
+                lam = args[2]
+                while lam[0] in ('ctor', 'cast') and lam[2]:
+                    lam = lam[2][0] if lam[0] == 'ctor' else lam[2]
+                L = self.u.function_for_decl(lam[1]) if lam[0] == 'lambda' else None
+                if L is not None and len(L.params) == 1:
+                    rets = [x for x in L.nodes if x['k'] == 'ReturnStmt' and L.children(x['i'])]
+                    others = [x for x in L.nodes if x['k'] in ('IfStmt', 'ForStmt', 'WhileStmt', 'CallExpr', 'CXXMemberCallExpr',
+                                                               'BinaryOperator') and x.get('op', '==') not in ('==',)]
+                    if len(rets) == 1 and not others:
+                        rt = Terms(L).t(L.children(rets[0]['i'])[0], rr, depth + 1)
+                        while rt[0] in ('cast', 'conv') and len(rt) > 2 and isinstance(rt[2], tuple):
+                            rt = rt[2]
+                        p0 = ('var', L.params[0])
+                        if rt[0] == 'bin' and rt[1] == '==' and p0 in (rt[2], rt[3]):
+                            val = rt[3] if rt[2] == p0 else rt[2]
+                            if p0 not in subterms(val):
+                                return ('bin', '==' if cal['tname'] == 'std::none_of' else '!=',
+                                        ('call', 'std::find', (args[0], args[1], val)), args[1])
+            if cal['tname'] == 'std::numeric_limits::max' and cal.get('recordargs') == 'unsigned int' and not args:
+                return VERTEX_MAX       # std::numeric_limits<VertexIndex>::max(): the value the sentinel constant is defined as
             return ('call', cal['tname'], args)
         if k in ('CXXConstructExpr', 'CXXTemporaryObjectExpr'):
             args = n.get('args', [])
